@@ -273,7 +273,7 @@ func (ig *ingest) deliver(e *Effect) {
 	if e.Entry == idE1 {
 		ev.Require("F1.own", props("C08", "C17"), "a delivered message is not the node's own", "net", Ne(mid(snd(m)), Field(rmf, "myMemberId")))
 		ev.Require("F1.height", props("C08", "C17"), "a delivered message's height equals the current height (not past, not future)", "net", Eq(ht(H), k.SHeight))
-		ev.Require("F1.instance", props("C08", "C17", "C03", "C07", "C01", "C11"), "a delivered message belongs to this instance", "net", Eq(inst(H), Field(rmf, "instanceId")))
+		ev.Require("F1.instance", props("C08", "C17", "C03", "C07", "C01", "C11", "C04"), "a delivered message belongs to this instance", "net", Eq(inst(H), Field(rmf, "instanceId")))
 		ev.Require("F1.handler", props("C17"), "delivery only to a non-nil handler", "net", Ne(This("rawmessagesfilter.ConsensusMessagesHandler"), tNil))
 		ig.exactHeightFilter(ev, "F1.exact", H)
 	} else {
@@ -317,7 +317,7 @@ func (ig *ingest) cacheInsert(e *Effect) {
 	ev.Verdict("F4.form", props("C17"), "cache values are built as []{m} or append(old[key], m) (order preserving)", "net", okForm, "value form "+val.Key())
 	H := hdr(m)
 	ev.Require("F2.own", props("C08", "C17"), "a cached message is not the node's own", "net", Ne(mid(snd(m)), Field(rmf, "myMemberId")))
-	ev.Require("F2.instance", props("C08", "C17", "C03", "C07", "C01", "C11"), "a cached message belongs to this instance", "net", Eq(inst(H), Field(rmf, "instanceId")))
+	ev.Require("F2.instance", props("C08", "C17", "C03", "C07", "C01", "C11", "C04"), "a cached message belongs to this instance", "net", Eq(inst(H), Field(rmf, "instanceId")))
 	ev.Require("F2.future", props("C08", "C17"), "a cached message is for a future height", "net", Lt(k.SHeight, ht(H)))
 	ev.Verdict("F2.key", props("C08", "C17"), "the cache key is the message's own height", "net", ev.Same(key, ht(H)), "key "+key.Key())
 	ev.Require("F5.newest", props("C17"), "only the newest future height is cached", "net", Le(Field(rmf, "latestFutureBlockHeight"), key))
@@ -794,7 +794,7 @@ func runProof(a *Analyzer, r *Results) {
 	verify := func(ref, s *Term) *Atom {
 		return ErrNil(Call("interfaces.VerifyConsensusMessage", km, ht(ref), raw(ref), s))
 	}
-	pr := props("C08", "C11", "C01", "C07", "C04", "C09")
+	pr := props("C08", "C11", "C01", "C07", "C04", "C09", "C05")
 	nTrue := 0
 	w := a.NewWalker(func(e *Effect) {
 		if e.Kind != "return" || len(e.Args) != 1 {
